@@ -25,6 +25,7 @@ package discovery
 // Labelled bounded: never counted as proved.
 
 import (
+	"encoding/json"
 	"fmt"
 	"lunar/aggregation-plugin/common"
 	sharedDiscovery "lunar/shared-model/discovery"
@@ -34,6 +35,7 @@ import (
 	"sort"
 	"strings"
 	"testing"
+	"time"
 )
 
 func c15Tree() common.SimpleURLTreeI {
@@ -289,4 +291,80 @@ func c15Inferred(t *testing.T, urls []string, statuses []int, maxLen int, label 
 		t.Logf("REPLAY KNOWN-FINDING %s: %d (stream, batching) cases fail as recorded", label, knownHit)
 	}
 	t.Logf("REPLAY bounded: %d (stream, batching) cases with %s checked", checked, label)
+}
+
+// Restart between batches: the state is written to its file after every batch and read back by a fresh plugin instance
+// (State.InitializeState / Run, the persisted form and its time-stamp strings). The tests above keep the state in
+// memory; this one sends every batch through the file, in three process time zones (UTC, +05:30, -08:00), and asks for
+// the same thing: what is on file after the last batch is the statistics of the whole stream, whatever the cut.
+// Whole-second time stamps (the persisted form keeps seconds).
+func TestBoundedC15RestartBetweenBatchesInAnyTimeZone(t *testing.T) {
+	zones := []*time.Location{time.UTC, time.FixedZone("plus0530", 5*3600+1800), time.FixedZone("minus0800", -8*3600)}
+	base := int64(1700000000000)
+	offsets := []int64{0, 20, 600}
+	statuses := []int{200, 201}
+	var alphabet []AccessLog
+	for _, o := range offsets {
+		for _, s := range statuses {
+			alphabet = append(alphabet, AccessLog{Timestamp: base + o*1000, Duration: 10, TotalDuration: 12, StatusCode: s, Method: "GET", Host: "a.com",
+				URL: "a.com/x", Interceptor: "lunar-aiohttp-interceptor/2.0.2", ConsumerTag: "c", RequestID: "r"})
+		}
+	}
+	var streams [][]AccessLog
+	var gen func(cur []AccessLog, n int)
+	gen = func(cur []AccessLog, n int) {
+		if len(cur) > 0 {
+			streams = append(streams, append([]AccessLog{}, cur...))
+		}
+		if n == 0 {
+			return
+		}
+		for _, a := range alphabet {
+			gen(append(cur, a), n-1)
+		}
+	}
+	gen(nil, 3)
+	previous := time.Local
+	defer func() { time.Local = previous }()
+	dir := t.TempDir()
+	checked := 0
+	for zi, zone := range zones {
+		time.Local = zone
+		for si, stream := range streams {
+			for cut := 0; cut <= len(stream); cut++ {
+				if cut == len(stream) && cut != 0 && zi > 0 {
+					continue // the uncut stream is the same run as cut == 0
+				}
+				path := fmt.Sprintf("%s/state-%d-%d-%d.json", dir, zi, si, cut)
+				for _, batch := range [][]AccessLog{stream[:cut], stream[cut:]} {
+					if len(batch) == 0 {
+						continue
+					}
+					state := &State{DiscoverFilepath: path}
+					if err := state.InitializeState(); err != nil {
+						t.Fatalf("REPLAY InitializeState: %v", err)
+					}
+					records := make([]common.AccessLog, len(batch))
+					for i := range batch {
+						records[i] = common.AccessLog(batch[i])
+					}
+					if err := Run(state, records, c15Tree()); err != nil {
+						t.Fatalf("REPLAY Run: %v", err)
+					}
+				}
+				raw, err := os.ReadFile(path)
+				if err != nil {
+					t.Fatalf("REPLAY state file: %v", err)
+				}
+				out := sharedDiscovery.Output{}
+				if err := json.Unmarshal(raw, &out); err != nil {
+					t.Fatalf("REPLAY state file does not parse: %v", err)
+				}
+				c15Check(t, fmt.Sprintf("restart between batches, zone %s, cut %d", zone, cut), *ConvertFromPersisted(out), stream)
+				_ = os.Remove(path)
+				checked++
+			}
+		}
+	}
+	t.Logf("REPLAY bounded: %d (zone, stream, cut) histories through the state file checked", checked)
 }
